@@ -3,6 +3,7 @@ import multiprocessing as mp
 import random
 
 from vf import engine_p
+from vf import memocheck
 from vf import execharness as H
 from vf.report import MachineryDefect, Run
 
@@ -29,6 +30,14 @@ def compare(expected, got):
     le = H.lib_errors(res)
     if le != expected[2]:
         return ("execute:one-error-per-failed-position", "errors %r; the specification's algorithm gives %r" % (le[:4], expected[2][:4]))
+    # ResolveFieldValue(objectType, objectValue, fieldName, argumentValues): every resolver is handed CoerceArgumentValues of the field
+    # definition of ITS runtime object type (6.4.1), whatever was executed before it
+    want = sorted(((ev[1], H._freeze(ev[2])) for ev in expected[3].trace if ev[0] == "invoke"), key=repr)
+    have = sorted(((ev[1], H._freeze(ev[2])) for ev in got["log"] if ev[0] == "invoke"), key=repr)
+    if want != have:
+        diff = [x for x in have if x not in want][:3]
+        return ("execute:resolvers-receive-the-coerced-arguments-of-their-own-field-definition",
+                "resolver invocations (path, arguments) %r; the specification's algorithm gives %r" % (diff, [x for x in want if x not in have][:3]))
     return None
 
 
@@ -118,6 +127,7 @@ def check(tier, seed):
     run.trusted("vf/ref_exec.py transcribes section 6 of the specification (with the non-propagating null documented by C04); vf/ref_coerce.py")
     run.assume("no deductive obligation: the executor is continuation-passing code over closures and runtime protocol objects (outside the VC generator's subset)")
     engine_p.run(run, "C04")
+    memocheck.run(run)
     # BlockingExecutor has no separate serial strategy: its loop is sequential by construction
     from py_gql.execution.blocking_executor import BlockingExecutor
     run.cov["obligations"] += 1
